@@ -151,7 +151,8 @@ type rsetIterator struct {
 	bucket string
 	mc     *XMCache
 	ledger.XMIterator
-	err error
+	value *ledger.VersionedData
+	err   error
 }
 
 func newRsetIterator(bucket string, iter ledger.XMIterator, mc *XMCache) ledger.XMIterator {
@@ -170,9 +171,21 @@ func (r *rsetIterator) Next() bool {
 	if !ok {
 		return false
 	}
-	// fill read set
-	r.mc.Get(r.bucket, r.XMIterator.Key())
+	// fill read set with the version the iterator serves (not with a second, later look-up of the
+	// key); a key the execution has already read keeps the version first seen, and that version
+	// is what the scan serves (the stripping iterator above drops it if it is an absent one)
+	key := r.XMIterator.Key()
+	data, err := r.mc.inputsCache.Get(r.bucket, key)
+	if err != nil {
+		data = r.XMIterator.Value()
+		r.mc.inputsCache.Put(r.bucket, key, data)
+	}
+	r.value = data
 	return true
+}
+
+func (r *rsetIterator) Value() *ledger.VersionedData {
+	return r.value
 }
 
 func (r *rsetIterator) Error() error {
